@@ -1442,7 +1442,12 @@ func NewPointFromBytes(b []byte) (Point, error) {
 				return nil, fmt.Errorf("unable to unmarshal field %s: %s", string(iter.FieldKey()), err)
 			}
 		case String:
-			// Skip since this won't return an error
+			// A string value is enclosed in double quotes. StringValue strips
+			// them without looking, so a value that lacks the closing quote
+			// (a lone `"`) must be refused here.
+			if v := p.it.valueBuf; len(v) < 2 || v[len(v)-1] != '"' {
+				return nil, fmt.Errorf("unable to unmarshal field %s: invalid string value", string(iter.FieldKey()))
+			}
 		case Boolean:
 			_, err := iter.BooleanValue()
 			if err != nil {
